@@ -265,7 +265,7 @@ class Engine:
                 sl = z3.Solver()
                 sl.add(fs2)
                 sl.add(active)
-                r = _z3_check(sl, self.timeout_ms)
+                r = _z3_check(sl, min(self.timeout_ms, 5000))
                 if r == z3.unsat:
                     self._cross(extra, "unsat")
                     return "unsat", None, "z3-oneshot-lazyack"
@@ -276,17 +276,19 @@ class Engine:
                 if not bad:
                     return "sat", (m if want_model else None), "z3-oneshot-lazyack"
                 active.extend(bad)
+        # nlsat is sensitive to the order in which constants are declared: try the query as built under a
+        # short cap, then re-parsed from its SMT-LIB text (another declaration order), then as built in full
         s = z3.Solver()
         s.add(fs2)
         s.add(cons)
-        r = _z3_check(s, self.timeout_ms)
+        short = min(self.timeout_ms, 5000)
+        r = _z3_check(s, short)
         if r == z3.sat:
             return "sat", (s.model() if want_model else None), "z3-oneshot"
         if r == z3.unsat:
             self._cross(extra, "unsat")
             return "unsat", None, "z3-oneshot"
         self.last_unknown = s.reason_unknown()
-        # re-parsed variant: declares the constants in another order (nlsat is sensitive to variable order)
         try:
             s2 = z3.Solver()
             s2.add(z3.parse_smt2_string(s.to_smt2()))
@@ -297,6 +299,15 @@ class Engine:
             return "sat", (s2.model() if want_model else None), "z3-oneshot-reparsed"
         if r == z3.unsat:
             return "unsat", None, "z3-oneshot-reparsed"
+        if self.timeout_ms > short:
+            s3 = z3.Solver()
+            s3.add(fs2)
+            s3.add(cons)
+            r = _z3_check(s3, self.timeout_ms)
+            if r == z3.sat:
+                return "sat", (s3.model() if want_model else None), "z3-oneshot"
+            if r == z3.unsat:
+                return "unsat", None, "z3-oneshot"
         # cvc5 on the exported script (no model: only unsat is used from it)
         try:
             res = cvc5_check(s.to_smt2(), self.timeout_ms)
@@ -663,6 +674,12 @@ class SymNum:
                     for r in rest[1:]:
                         out = out * r
                     return _r(out)
+        if getattr(ENGINE, "div_elim", False) and not z3.is_rational_value(b) and not z3.is_int_value(b):
+            # division elimination: a/b becomes a fresh q with q*b == a (b != 0 is an obligation), which keeps
+            # every later term polynomial
+            q = ENGINE.new("quot")
+            ENGINE.add(q * _r(b) == _r(a))
+            return q
         return _r(a) / _r(b)
 
     def __truediv__(self, o):
